@@ -672,6 +672,20 @@ fn gen_address(t: &mut Tape, g: &Gates) -> Lit {
 }
 
 fn gen_bool(t: &mut Tape, g: &Gates) -> Lit {
+    // BOOL# followed by a number that is no boolean value (2, 10, 255, 2^32 ...) must be rejected;
+    // other spellings of 0 / 1 (01, 0_1, 00) are a matter of taste
+    if t.ratio(1, 4) && g.want("BOOL_LITERAL_0_1") {
+        let (mag, class, over) = magnitude_class(t);
+        if over || mag >= 2 {
+            let digits = if over { format!("{}0", u128::MAX) } else { mag.to_string() };
+            return Lit { text: format!("BOOL#{}", digits), expect: Expect::Reject("no boolean value".into()), family: "boolean", class: format!("bool#number.{}", class), embed: Embed::Init };
+        }
+        let sp = *t.pick(&["0", "00", "0_0"]);
+        let text = if mag == 0 { format!("BOOL#{}", sp) } else { format!("BOOL#{}", sp.replacen('0', "", 1).to_string() + "1") };
+        let plain = text == "BOOL#0" || text == "BOOL#1";
+        let e = Expect::Bool(mag == 1);
+        return Lit { text, expect: if plain { e } else { Expect::Either(Box::new(e)) }, family: "boolean", class: "bool#digit-spelling".into(), embed: Embed::Init };
+    }
     let v = t.flag();
     let text = match t.below(4) {
         0 | 1 => if v { "TRUE" } else { "FALSE" }.to_string(),
